@@ -394,11 +394,12 @@ class TransactionManager(Elaboratable):
         independents = defaultdict[TBody, set[TBody]](set)
 
         for elem in method_map.methods_and_transactions:
-            indeps = frozenset[TBody]().union(
-                *(frozenset(method_map.transactions_for(ind)) for ind in chain([elem], elem.independent_list))
-            )
-            for transaction1, transaction2 in product(indeps, indeps):
-                independents[transaction1].add(transaction2)
+            indeps = [frozenset(method_map.transactions_for(ind)) for ind in chain([elem], elem.independent_list)]
+            for k1, k2 in product(range(len(indeps)), repeat=2):
+                if k1 == 0 and k2 == 0 and elem.nonexclusive:
+                    continue  # callers of a nonexclusive method can run as one transaction
+                for transaction1, transaction2 in product(indeps[k1], indeps[k2]):
+                    independents[transaction1].add(transaction2)
 
         simultaneous = set[frozenset[TBody]]()
 
